@@ -318,6 +318,22 @@ func jobC02(c *rt.Ctx) {
 			dl = append(dl, l)
 		}
 	}
+	// very long messages: every multiple of 2^18 up to 8 MiB (thorough: 24 MiB), with the lengths just
+	// below and above it for every fourth, and decimal round numbers (piecewise hashing with a slice size
+	// of its own: the last slice, the slice boundary, a length that is an exact multiple)
+	if c.Config == "default" || c.Config == "" || c.Thorough() {
+		top := 32
+		if c.Thorough() {
+			top = 96
+		}
+		for m := 1; m <= top; m++ {
+			dl = append(dl, m<<18)
+			if m%4 == 0 || m < 8 {
+				dl = append(dl, m<<18-1, m<<18+1)
+			}
+		}
+		dl = append(dl, 1000000, 2000000, 4000000, 5000000, 8000000, 3<<19, 3<<20, 5<<19, 5<<20, 7<<19)
+	}
 	dvars := []signVariant{{ref.Pure, ""}, {ref.Ctx, "c"}, {ref.Ctx, strings.Repeat("k", 255)}}
 	signAndCompare := func(class, what string, seed, msg []byte, sv signVariant) {
 		want := ref.Sign(seed, msg, sv.v, []byte(sv.ctx))
@@ -344,6 +360,9 @@ func jobC02(c *rt.Ctx) {
 	}
 	for li, l := range dl {
 		for vi, sv := range dvars {
+			if l > 1<<17 && vi > 0 && (li+vi)%3 != 0 && !c.Thorough() {
+				continue
+			}
 			if !c.Take() {
 				continue
 			}
@@ -381,6 +400,36 @@ func jobC02(c *rt.Ctx) {
 				c.Distinct(fmt.Sprintf("co %d %d %d", si, ci, vi), true)
 				signAndCompare("coincidence", cc.name, seed, cc.msg, sv)
 			}
+		}
+	}
+	// (6) held results: 70 signatures (and the keys of 70 NewKeyFromSeed calls) kept by the caller, each then
+	// used as the caller's own buffer: every other one still reads as the RFC 8032 value
+	c.Require("held-results")
+	for g, sv := range []signVariant{{ref.Pure, ""}, {ref.Ctx, "held"}, {ref.Ph, ""}} {
+		if !c.Take() {
+			continue
+		}
+		c.Class("held-results")
+		c.Distinct(fmt.Sprintf("held %d", g), true)
+		var got, want [][]byte
+		for i := 0; i < 70; i++ {
+			seed := seedOf(7300 + i%5)
+			msg := msgLen(64, i)
+			o := &Options{Context: sv.ctx}
+			if sv.v == ref.Ph {
+				o.Hash = crypto.SHA512
+			}
+			k := NewKeyFromSeed(seed)
+			sig, err := k.Sign(nil, msg, o)
+			if err != nil {
+				sig = nil
+			}
+			got = append(got, sig, k)
+			want = append(want, ref.Sign(seed, msg, sv.v, []byte(sv.ctx)), append(append([]byte{}, seed...), refPublic(7300+i%5)...))
+		}
+		c.Step(70)
+		if j, i := heldResults(got, want); j >= 0 {
+			c.Violation("C02 held-results", fmt.Sprintf("result %d (signatures and keys alternate) changed or was wrong after the caller appended to result %d (%s)", j, i, sv.v), map[string]interface{}{"held": j, "appended_to": i, "variant": sv.v.String()})
 		}
 	}
 }
